@@ -109,7 +109,7 @@ def check(model: Model, run: Run) -> None:
     def guard_terms(st: ast.AST):
         terms: set = set()
         weak = False
-        for t, pol in guards(neg.node, st):
+        for t, pol in flat_guards(neg.node, st):
             tt, w = cap_terms(t, sides)
             if tt and not pol:
                 # an `elif`: the earlier test being false is not a requirement of this branch
@@ -179,13 +179,18 @@ def check(model: Model, run: Run) -> None:
             if len(lc.generators) == 1 and len(lc.generators[0].ifs) == 1 and dotted(lc.elt) == dotted(lc.generators[0].target):
                 t = lc.generators[0].ifs[0]
                 if isinstance(t, ast.Compare) and len(t.ops) == 1 and isinstance(t.ops[0], ast.In) and dotted(t.left) == dotted(lc.elt):
-                    it_side = _var_side(neg, dotted(lc.generators[0].iter) or '', sides)
-                    in_side = _var_side(neg, dotted(t.comparators[0]) or '', sides)
+                    it_side = _var_side(neg, dotted(lc.generators[0].iter) or '', sides, comps[0])
+                    in_side = _var_side(neg, dotted(t.comparators[0]) or '', sides, comps[0])
                     member = {it_side, in_side} == {'sent', 'recv'}
             ok = terms == BOTH(code) and not weak and member
             detail = 'comprehension, guards %s member-of-both %s' % (sorted(terms), member)
         resets = [s for s in assigns.get(field, []) if isinstance(s, ast.Assign) and isinstance(s.value, ast.List) and not s.value.elts]
-        run.check(ok and len(resets) == 1, neg.qualname, 'self.%s = intersection (%s)' % (field, detail), neg.loc(apps[0]) if apps else neg.loc(), '%s must be reset then filled with the entries present in both %s capabilities' % (field, code))
+        if comps and apps == [comps[0]]:
+            # assigned whole: every other store is the empty list (one before it, or one per refusing branch)
+            reset_ok = len(resets) >= 1 and len(resets) + 1 == len(assigns.get(field, []))
+        else:
+            reset_ok = len(resets) == 1
+        run.check(ok and reset_ok, neg.qualname, 'self.%s = intersection (%s)' % (field, detail), neg.loc(apps[0]) if apps else neg.loc(), '%s must be reset then filled with the entries present in both %s capabilities' % (field, code))
     # hold time
     hs = assigns.get('holdtime', [])
     okh = False
@@ -246,17 +251,31 @@ def check(model: Model, run: Run) -> None:
     run.rule('C07.R6', 'Capabilities.new inserts each capability code only under its own neighbor.capability.<flag> guard (MULTIPROTOCOL and HOSTNAME unconditional)', floor=10)
     _r6_new(model, run)
 
+    run.rule(
+        'C07.R7',
+        'the code octet pack_capabilities writes for a capability is the key it is stored under - the key announced() and the '
+        'negotiation look up - in the standard and in the RFC 9072 encoding: a code taken from the object can differ from it '
+        '(RouteRefresh and MultiSession are registered under two codes and Capability.klass rewrites their ID, finding F18)',
+        floor=1,
+    )
+    _r7_written_code(model, run)
 
-def _var_side(fi: FuncInfo, name: str, sides: dict[str, str]) -> str | None:
-    """side of a local bound to recv_capa[...] / sent_capa[...]"""
+
+def _var_side(fi: FuncInfo, name: str, sides: dict[str, str], at: ast.AST | None = None) -> str | None:
+    """side of a local bound to recv_capa[...] / sent_capa[...]; with `at`, of its last binding before that statement
+    (an inlined helper used twice binds the same local twice)"""
     if name in sides:
         return sides[name]
-    for n in walk_no_nested(fi.node):
-        if isinstance(n, ast.Assign) and isinstance(n.targets[0], ast.Name) and n.targets[0].id == name:
-            for x in ast.walk(n.value):
-                d = dotted(x) if isinstance(x, (ast.Name, ast.Attribute)) else None
-                if d in sides:
-                    return sides[d]
+    defs = [n for n in walk_no_nested(fi.node) if isinstance(n, ast.Assign) and isinstance(n.targets[0], ast.Name) and n.targets[0].id == name]
+    defs.sort(key=lambda n: (n.lineno, n.col_offset))
+    if at is not None:
+        before = [n for n in defs if (n.lineno, n.col_offset) < (at.lineno, at.col_offset)]  # type: ignore[attr-defined]
+        defs = before[-1:] or defs
+    for n in defs:
+        for x in ast.walk(n.value):
+            d = dotted(x) if isinstance(x, (ast.Name, ast.Attribute)) else None
+            if d in sides:
+                return sides[d]
     return None
 
 
@@ -412,7 +431,23 @@ def _r3_as(model: Model, run: Run, neg: FuncInfo, sides: dict[str, str]) -> None
         )
     # Open.asn really is the 2-octet field, and make_open writes trans()
     asn = model.func(OPEN + '.asn')
-    ok = any('!H' in norm(r) and '[1:3]' in norm(r) for r in walk_no_nested(asn.node) if isinstance(r, ast.Return))
+    folder = Folder(model)
+    ok = False
+    for r in walk_no_nested(asn.node):
+        if not isinstance(r, ast.Return) or r.value is None:
+            continue
+        text = Loc(model, asn).expand(r.value)
+        for sub in ast.walk(ast.parse(text, mode='eval')):
+            if isinstance(sub, ast.Subscript) and dotted(sub.value) == 'self._packed':
+                # octets 1..2, written [1:3] or through a named slice(1, 3)
+                if isinstance(sub.slice, ast.Slice):
+                    lo = folder.fold(sub.slice.lower, asn.module, asn.cls) if sub.slice.lower is not None else 0
+                    hi = folder.fold(sub.slice.upper, asn.module, asn.cls) if sub.slice.upper is not None else None
+                    where = (lo, hi) if sub.slice.step is None else None
+                else:
+                    sl = folder.fold(sub.slice, asn.module, asn.cls)
+                    where = (sl.start or 0, sl.stop) if isinstance(sl, slice) and sl.step is None else None
+                ok = ok or (where == (1, 3) and "'!H'" in text)
     run.check(ok, asn.qualname, 'reads the 2-octet field', asn.loc(), 'Open.asn decodes bytes 1..2')
 
 
@@ -672,6 +707,67 @@ FLAGS = {
     '_protocol': (None, ['MULTIPROTOCOL']),
     '_hostname': (None, ['HOSTNAME']),
 }
+
+
+def _r7_written_code(model: Model, run: Run) -> None:
+    top = model.func(CAPS + '.pack_capabilities')
+    # ... and the methods of the class it calls on itself (a generator of TLVs shared by the two encodings)
+    todo = [top]
+    for c0 in walk_no_nested(top.node):
+        if isinstance(c0, ast.Call) and isinstance(c0.func, ast.Attribute) and dotted(c0.func.value) in ('self', 'cls'):
+            todo += [model.funcs[q] for q in model.callees(top.module, c0) if q in model.funcs and q.startswith(CAPS + '.') and model.funcs[q] not in todo]
+    n = 0
+    for fi in todo:
+        n += _r7_headers(model, run, fi)
+    if n < 1:
+        run.cannot('no capability TLV header found in pack_capabilities or the methods it calls')
+
+
+def _r7_headers(model: Model, run: Run, fi: FuncInfo) -> int:
+    run.analysed(fi)
+    loc = Loc(model, fi)
+    pm = parent_map(fi.node)
+
+    def enclosing_fors(n: ast.AST) -> list[ast.For]:
+        out = []
+        cur: ast.AST | None = n
+        while cur is not None:
+            cur = pm.get(id(cur))
+            if isinstance(cur, ast.For):
+                out.append(cur)
+        return out
+
+    n = 0
+    for c in walk_no_nested(fi.node):
+        if not isinstance(c, ast.Call):
+            continue
+        # a TLV header: bytes([code, len(value)]) or pack('!BB', code, len(value)) inside the loop over the values of one capability
+        if isinstance(c.func, ast.Name) and c.func.id == 'bytes' and len(c.args) == 1 and isinstance(c.args[0], (ast.List, ast.Tuple)):
+            fields = list(c.args[0].elts)
+        elif (dotted(c.func) or '').rsplit('.', 1)[-1] == 'pack' and len(c.args) >= 3:
+            fields = list(c.args[1:])
+        else:
+            continue
+        fors = enclosing_fors(c)
+        inner = next((f for f in fors if isinstance(f.iter, ast.Call) and isinstance(f.iter.func, ast.Attribute) and f.iter.func.attr == 'extract_capability_bytes' and isinstance(f.target, ast.Name)), None)
+        if inner is None:
+            continue
+        at = next((i for i, e in enumerate(fields) if norm(e) == 'len(%s)' % inner.target.id), None)  # type: ignore[union-attr]
+        if at is None or at == 0:
+            continue
+        n += 1
+        code = fields[at - 1]
+        src = loc.resolve(code) if isinstance(code, ast.Name) else code
+        key_ok = False
+        if isinstance(src, ast.Name):
+            for f in fors:
+                it = norm(f.iter)
+                if isinstance(f.target, ast.Tuple) and f.target.elts and isinstance(f.target.elts[0], ast.Name) and f.target.elts[0].id == src.id and re.fullmatch(r'(sorted\()?self\.items\(\)\)?', it):
+                    key_ok = True
+                if isinstance(f.target, ast.Name) and f.target.id == src.id and re.fullmatch(r'(sorted\()?self(\.keys\(\))?\)?', it):
+                    key_ok = True
+        run.check(key_ok, fi.qualname, 'capability TLV header %s: the code is %s' % (norm(c)[:50], 'the key of the iteration over self' if key_ok else norm(code)), fi.loc(c), 'the peer must read the code the capability is stored under; %s is not that key' % norm(code))
+    return n
 
 
 def _r6_new(model: Model, run: Run) -> None:
